@@ -1,12 +1,57 @@
+# Development configuration for part B of C12 (./check C12B); merged into checks/c12.py with part A.
 SPEC = {
     "theorem_prefix": "C12",
     "lean_props": "Hive.Props.C12b",
     "lean_namespace": "Hive.C12b",
     "driver": "drv_c12b",
     "harness": "c12b",
-    "trusted_base": ["hand-written models Hive/Model/C12b*.lean of bytesfilter, walker, timeheap, indexedstorage, onchangemap, subscriptionmanager, tied by differential execution (harness/c12b)",
-                     "Go toolchain, compiled Lean driver"],
-    "modelled": [],
-    "manifest": {},
-    "assumptions": [],
+    "theorems": [
+        "C12_bytesfilter_refines", "C12_bytesfilter_last_n", "C12_bytesfilter_accepted",
+        "C12_walker_refines", "C12_walker_every_element_once", "C12_walker_revisit_yields_all",
+        "C12_walker_next_is_front", "C12_walker_push_semantics", "C12_walker_old_pushfront_witness",
+        "C12_timeheap_refines", "C12_timeheap_total_is_heap_sum", "C12_timeheap_fixed_window",
+        "C12_timeheap_old_clear_witness",
+        "C12_indexedstorage_refines", "C12_indexedstorage_iteration_mirrors", "C12_indexedstorage_no_aliasing",
+        "C12_onchangemap_keyed_store", "C12_onchangemap_changed_snapshot", "C12_onchangemap_callbacks_mirror",
+        "C12_submgr_topic_count_is_sum", "C12_submgr_topic_iff_client", "C12_submgr_events_mirror",
+        "C12_submgr_forced_drop", "C12_submgr_old_limit_path_witness",
+    ],
+    "trusted_base": [
+        "hand-written models Hive/Model/C12b*.lean of ds/bytesfilter, ds/walker, ds/timeheap, core/memstorage/indexedstorage.go, "
+        "ds/onchangemap, web/subscriptionmanager, tied by differential execution (harness/c12b, driver drv_c12b)",
+        "Go toolchain, compiled Lean driver",
+        "TimeHeap has no clock injection: the harness's shift clock rewrites the timestamps of the heap entries through reflect/unsafe "
+        "(layout checked at start-up) and is cross-checked by cases against the real clock with sleeps",
+    ],
+    "modelled": [
+        "Go maps / ShrinkingMaps as duplicate-free association lists (shrinking is unobservable: part A); iteration order canonicalised by sorting",
+        "BytesFilter: slice + set, size 0 panics on Add (totalised); identifiers are Nat, newIdentifierFunc is injective in the harness",
+        "Walker: queue + insertion-ordered pushed set + flags; Next on an empty queue panics (totalised)",
+        "TimeHeap: container/heap up/down over a slice + running total over an explicit clock; uint64 wrap-around and the float32 rounding of the "
+        "returned average are NOT modelled (the harness recovers the integer total from the float exactly for the generated sizes)",
+        "IndexedStorage: cache index->storage pointer (allocation numbers), storages as association lists",
+        "OnChangeMap: map + enabled switch + 4 optional callbacks with injected failures; the mutexes are not modelled (sequential histories)",
+        "SubscriptionManager: per-client topic counts + global topic counts + limit; events in emission order, batches from map iteration sorted; "
+        "the RWMutex is not modelled (sequential histories); cleanup thresholds are unobservable and ignored by the model",
+    ],
+    "manifest": {
+        "text": "Part B of C12. Lean theorems over every operation history and option setting: BytesFilter refines 'the last N accepted identifiers' "
+                "with slice/set consistency (C12_bytesfilter_refines, _last_n); Walker refines a deque+seen-set, every offered element is yielded or queued "
+                "exactly once without revisiting and as often as offered with revisiting, closed-form Push/PushFront semantics (C12_walker_*); TimeHeap "
+                "(container/heap array + running total over an explicit clock) refines the windowed-sum specification, total = sum of the heap, closed form for "
+                "a fixed window (C12_timeheap_*); IndexedStorage refines a partial function of storages, ForEach/Clear enumerate exactly the cached pairs, no "
+                "aliasing (C12_indexedstorage_*); OnChangeMap is a keyed store for every callback configuration/failure pattern, the changed callback sees the "
+                "post-state and the item callbacks mirror every change (C12_onchangemap_*); SubscriptionManager: topics[t] = sum over clients in every reachable "
+                "state for every limit, a listener folding all events reconstructs clients, per-client counts and topics, forced drop characterised "
+                "(C12_submgr_*). Witness theorems about the three unrepaired code paths. The hand-written models are re-validated against the working tree "
+                "on every run by a line-by-line differential run (12 000 histories x ~40 requests in the quick tier) plus an independent in-Go abstract "
+                "model per container.",
+        "note": "Trusted: Lean kernel; models Hive/Model/C12b*.lean (tie = differential execution, random + corpus histories); sequential histories only "
+                "(mutexes not modelled); TimeHeap clock driven by timestamp shifting (reflect/unsafe) cross-checked against the real clock.",
+        "technique": "Lean 4 refinement / invariant proofs by induction over operation histories + differential correspondence",
+    },
+    "assumptions": [
+        "single-threaded use of each container (the internal mutexes serialise calls; concurrency is not part of C12)",
+        "OnChangeMap mirror theorem: callbacks enabled, item callbacks installed, changed-callback does not fail, mutating Modify callbacks report",
+    ],
 }
